@@ -31,6 +31,7 @@ CATALOGUE = {
     "R19": "the intermediate values of a method chain `let X = a.m1(..).m2(&b.m3()).m4();` are bound to fresh names in evaluation order (receiver, then arguments left to right)",
     "R20": "float arithmetic in the named f64 bindings becomes calls on an uninterpreted IEEE-754 algebra, operator by operator (fadd fsub fmul fdiv fneg ffloor fint flit); decimal literals keep their digits",
     "R21": "`x as i16` / `x as i64` on a double becomes a prelude function carrying Rust's cast contract (exact when representable, saturating otherwise)",
+    "R22": "in functions whose loops are verified in isolation: a top-level immutable `let N = E;` whose name the contract does not mention, with E a pure expression (identifiers, literals, + - * / % comparisons, casts, `.len()`) over operands that are never assigned, keeps its statement (so its own overflow obligations stay where they are) and has its later uses replaced by `(E)`",
     "D4": "statement slicing: a floating-point / BigInt / unverifiable tail or binding is replaced by a call of an uncontracted (or explicitly assumed-contract) external function of the same free variables",
 }
 
@@ -844,28 +845,35 @@ def r_poly_map(sig, body, arg):
 
 def r_any_chain(sig, body, arg):
     """R4: `if RECV.iter()[.skip(A)].any(|P| E) {` and `if (A..B).any(|P| E) {` -> a flag loop hoisted in
-    front of the `if` (no early exit; the flag has the same value)."""
+    front of the `if` (no early exit; the flag has the same value).  RECV may be spread over lines."""
     n = 0
-    pat = re.compile(r"if\s+([\w.]+?)\.iter\(\)(?:\.skip\(((?:[^()]|\([^()]*\))*)\))?\.any\(\|\s*&?(\w+)\s*\|\s*([^)]*\))\s*\)\s*\{")
-    pat2 = re.compile(r"if\s+\(([^().]+?)\.\.([^().]+?)\)\.any\(\|\s*&?(\w+)\s*\|\s*((?:[^()]|\([^()]*\))*)\)\s*\{")
+    head = re.compile(r"if\s+(?:((?:\w+\s*\.\s*)*\w+)\s*\.\s*iter\(\)\s*(?:\.\s*skip\(((?:[^()]|\([^()]*\))*)\)\s*)?|\(([^().]+?)\.\.([^().]+?)\)\s*)\.\s*any\(")
+    pos = 0
     while True:
-        m = pat.search(body)
-        m2 = pat2.search(body)
-        if m and (not m2 or m.start() < m2.start()):
-            n += 1
-            flag = "vx_any%d" % n
-            lo = "0" if m.group(2) is None else "vx_min(%s, %s.len())" % (m.group(2), m.group(1))
-            pre = ("let mut %s = false;\n        for vx_i in %s..%s.len() {\n            let %s = %s[vx_i];\n            if %s { %s = true; }\n        }\n        "
-                   % (flag, lo, m.group(1), m.group(3), m.group(1), m.group(4), flag))
-            body = body[:m.start()] + pre + "if %s {" % flag + body[m.end():]
-        elif m2:
-            n += 1
-            flag = "vx_any%d" % n
-            pre = ("let mut %s = false;\n        for vx_i in %s..%s {\n            let %s = vx_i;\n            if %s { %s = true; }\n        }\n        "
-                   % (flag, m2.group(1).strip(), m2.group(2).strip(), m2.group(3), m2.group(4).strip(), flag))
-            body = body[:m2.start()] + pre + "if %s {" % flag + body[m2.end():]
-        else:
+        m = head.search(body, pos)
+        if not m:
             break
+        o = m.end() - 1
+        c = _match_paren(body, o)
+        after = re.match(r"\s*\{", body[c + 1:]) if c > 0 else None
+        cm = re.match(r"\s*\|\s*&?\s*(\w+)\s*\|\s*(.*)$", body[o + 1:c], re.S) if c > 0 else None
+        if not after or not cm:
+            pos = m.end()
+            continue
+        n += 1
+        flag = "vx_any%d" % n
+        var, cond = cm.group(1), cm.group(2).strip()
+        if m.group(1) is not None:
+            recv = re.sub(r"\s+", "", m.group(1))
+            lo = "0" if m.group(2) is None else "vx_min(%s, %s.len())" % (m.group(2), recv)
+            pre = ("let mut %s = false;\n        for vx_i in %s..%s.len() {\n            let %s = %s[vx_i];\n            if %s { %s = true; }\n        }\n        "
+                   % (flag, lo, recv, var, recv, cond, flag))
+        else:
+            pre = ("let mut %s = false;\n        for vx_i in %s..%s {\n            let %s = vx_i;\n            if %s { %s = true; }\n        }\n        "
+                   % (flag, m.group(3).strip(), m.group(4).strip(), var, cond, flag))
+        new = pre + "if %s {" % flag
+        body = body[:m.start()] + new + body[c + 1 + after.end():]
+        pos = m.start() + len(new)
     return sig, body, n
 
 
@@ -1022,6 +1030,59 @@ def r_float_expr(sig, body, arg):
         n += 1
     return sig, body, n
 
+
+
+_KW = {"as", "usize", "u8", "u16", "u32", "u64", "u128", "i8", "i16", "i32", "i64", "i128", "isize", "true", "false", "len"}
+
+
+def inline_fresh_lets(sig, body, mentioned):
+    """R22 (engine step, isolation=on functions only); returns (body, [names])."""
+    from . import extract as X
+    done = []
+    pos = 0
+    while True:
+        masked = X.mask(body)
+        m = re.compile(r"\blet\s+([a-z_]\w*)\s*(?::\s*[\w<>]+\s*)?=\s*([^;{}]*);").search(masked, pos)
+        if not m:
+            break
+        pos = m.end()
+        name = m.group(1)
+        expr = body[m.start(2):m.end(2)].strip()
+        depth = masked[:m.start()].count("{") - masked[:m.start()].count("}")
+        if depth != 1 or name in mentioned or name in done:
+            continue
+        if len(re.findall(r"\blet\s+(?:mut\s+)?%s\b" % re.escape(name), masked)) != 1:
+            continue
+        if not re.match(r"^[\w\s.+\-*/%()<>=!&|]+$", expr) or "&&" in expr or "||" in expr:
+            continue
+        # calls: only `.len()`
+        if re.search(r"\b(?!len\b)[A-Za-z_]\w*\s*\(", expr):
+            continue
+        ids = set(re.findall(r"\b[A-Za-z_]\w*\b", expr)) - _KW
+        ok = True
+        for x in ids:
+            root = x
+            if re.search(r"\blet\s+mut\s+%s\b" % re.escape(root), masked) or re.search(r"&mut\s+%s\b" % re.escape(root), masked) \
+                    or re.search(r"\b%s\b[\w.\[\]]*\s*(?:<<|>>|[+\-*/%%|&^])?=(?!=)" % re.escape(root), masked[m.end():]) \
+                    or re.search(r"\bmut\s+%s\b" % re.escape(root), sig) or re.search(r"\b%s\s*:\s*&mut\b" % re.escape(root), sig):
+                ok = False
+                break
+        if not ok or not ids:
+            continue
+        tail = body[m.end():]
+        tmask = masked[m.end():]
+        out = []
+        last = 0
+        for u in re.finditer(r"(?<![\w.])%s\b(?!\s*[:(])" % re.escape(name), tmask):
+            out.append(tail[last:u.start()])
+            out.append("(" + expr + ")")
+            last = u.end()
+        if last == 0:
+            continue
+        out.append(tail[last:])
+        body = body[:m.end()] + "".join(out)
+        done.append(name)
+    return body, done
 
 
 RULES = {
